@@ -50,7 +50,8 @@ in how they print) -/
 inductive Val where
   | atom (a : Atom)
   | tuple (l : List Atom)
-  | list (l : List Elem)
+  /-- a `list`, or a `collections.deque` when `dq` (the two differ in how they print and never compare equal) -/
+  | list (dq : Bool) (l : List Elem)
   | dict (ordered : Bool) (d : List (String × Atom))
 deriving DecidableEq, Repr, Inhabited
 
@@ -58,7 +59,7 @@ deriving DecidableEq, Repr, Inhabited
 def Elem.toVal : Elem → Val
   | .atom a => .atom a
   | .tuple l => .tuple l
-  | .list l => .list (l.map .atom)
+  | .list l => .list false (l.map .atom)
 
 /-- numeric reading of an atom (`True == 1`, `False == 0`) -/
 def Atom.num : Atom → Option Int
@@ -119,7 +120,7 @@ def pyEqDict (a b : Dict Atom) : Bool := dictLe a b && dictLe b a
 def Val.pyEq : Val → Val → Bool
   | .atom a, .atom b => a.pyEq b
   | .tuple a, .tuple b => pyEqList a b
-  | .list a, .list b => pyEqElems a b
+  | .list x a, .list y b => x == y && pyEqElems a b
   | .dict _ a, .dict _ b => pyEqDict a b
   | _, _ => false
 
@@ -205,7 +206,7 @@ def World.rebind (w : World) (s : Nat) (f : String) : World :=
 def World.appendTo (w : World) (s : Nat) (f : String) (e : Elem) : World :=
   let sh := w.shares s
   match dget sh.data f with
-  | some (.list l) => w.setShare s { sh with data := dset sh.data f (.list (l ++ [e])) }
+  | some (.list dq l) => w.setShare s { sh with data := dset sh.data f (.list dq (l ++ [e])) }
   | _ => w
 
 /-- in-place `share[f][k] = a` (a mapping in the field; otherwise nothing) -/
@@ -244,12 +245,12 @@ def World.apply (w : World) : WOp → World
     w.setShare s { sh with deck := sh.deck ++ [e] }
   | .hold s f =>
     match dget (w.shares s).data f with
-    | some (.list _) => { w with held := w.held ++ [{ sid := s, f := f }] }
+    | some (.list _ _) => { w with held := w.held ++ [{ sid := s, f := f }] }
     | some (.dict _ _) => { w with held := w.held ++ [{ sid := s, f := f }] }
     | _ => { w with held := w.held ++ [{ sid := s, f := f, void := true }] }
   | .happend i e =>
     w.viaHeld i (fun h => w.appendTo h.sid h.f e)
-      fun v => match v with | .list l => .list (l ++ [e]) | v => v
+      fun v => match v with | .list dq l => .list dq (l ++ [e]) | v => v
   | .hsetitem i k a =>
     w.viaHeld i (fun h => w.setitemTo h.sid h.f k a)
       fun v => match v with | .dict o d => .dict o (dset d k a) | v => v
@@ -497,8 +498,8 @@ def Log.logStreak (w : World) (l : Log) : World × Log × Option Err :=
         | (field, none) =>
           match dget sh.data field with
           | none => (w, l, none)
-          | some (.list q) =>
-            let w' := w.setShare sid { sh with data := dset sh.data field (.list []) }
+          | some (.list dq q) =>            -- `MutableSequence` (list, deque): drained with `pop()`
+            let w' := w.setShare sid { sh with data := dset sh.data field (.list dq []) }
             if !l.timeFmt && !q.isEmpty then (w', l, some .keyError) else   -- `self.formats['_time']`
             let (l', e) := l.write (streakRecs w.stamp q)
             (w', l', e)
@@ -937,6 +938,31 @@ def queued (s : S1) (sid : Nat) (q : String) : List Op → List Elem
   | [] => []
   | op :: rest => queuedBy s.world sid q op ++ queued (s.step op).1 sid q rest
 
+/-- the item assignment one operation makes on the mapping in field `q` of share `sid`:
+`share[q][k] = a` through the share, or `ref[k] = a` through a live reference to that mapping -/
+def assignedBy (w : World) (sid : Nat) (q : String) : Op → Option (String × Atom)
+  | .w (.setitem s f k a) => if s = sid ∧ f = q then some (k, a) else none
+  | .w (.hsetitem i k a) =>
+    match w.held[i]? with
+    | some h => if h.live = true ∧ h.sid = sid ∧ h.f = q then some (k, a) else none
+    | none => none
+  | _ => none
+
+/-- the mapping queue as the property sees it, over a history that starts in `s` with `d` waiting:
+an item assignment queues the item behind the waiting ones (a new key) or replaces the value of a
+waiting one in place; a logger run logs every waiting item in insertion order and leaves none.
+Returns (the items logged, in order; the items still waiting). -/
+def mapQueue (s : S1) (sid : Nat) (q : String) : Dict Atom → List Op → List Elem × Dict Atom
+  | d, [] => ([], d)
+  | d, .w o :: rest =>
+    mapQueue (s.step (.w o)).1 sid q
+      (match assignedBy s.world sid q (.w o) with | some (k, a) => dset d k a | none => d) rest
+  | d, .ctl c :: rest =>
+    if isRun s.status c then
+      let r := mapQueue (s.step (.ctl c)).1 sid q [] rest
+      (dictItems d ++ r.1, r.2)
+    else mapQueue (s.step (.ctl c)).1 sid q d rest
+
 /-- every (non-void) reference to field `q` of share `sid` is live: the object the producer holds
 IS the field's value -/
 def refsLive (w : World) (sid : Nat) (q : String) : Prop :=
@@ -952,7 +978,7 @@ def noOverwrite (sid : Nat) (q : String) : List Op → Bool
 /-- the elements waiting in the queue field -/
 def pending (w : World) (sid : Nat) (q : String) : List Elem :=
   match dget (w.shares sid).data q with
-  | some (.list l) => l
+  | some (.list _ l) => l
   | _ => []
 
 end Ioflo.LogRules
